@@ -176,6 +176,16 @@ func (g *Gen) oblig(kind, anchor, goal, desc string, pos token.Pos, contractual 
 	if goal == "true" {
 		// trivially true obligations are still counted (they are discharged by construction)
 	}
+	if g.fc != nil && g.fc.DataflowOnly != "" {
+		switch kind {
+		case "nil", "bounds", "div", "overflow", "frame", "assert-type", "panic", "pool-put":
+			// dataflow-only unit: safety of the unit itself is not claimed; the fact is assumed (executions that panic
+			// are not considered)
+			g.assume(g.curReach, goal)
+			g.addAssumption("dataflow-only unit " + g.unit + ": no nil/bounds/overflow/frame obligations are generated for it and calls without contract are over-approximated; only the stated clauses are checked (" + g.fc.DataflowOnly + ")")
+			return &Oblig{Unit: g.unit, Name: kind + ":" + anchor, Kind: kind}
+		}
+	}
 	base := kind
 	if anchor != "" {
 		base += ":" + anchor
